@@ -1099,10 +1099,9 @@ func (self *Node) deleteChild(path Path) Node {
 		if id == nil {
 			return errNode(meta.ErrInvalidParam, "", nil)
 		}
-		if err := p.ModifyI32(p.Read-4, int32(size-1)); err != nil {
-			return errNode(meta.ErrWrite, "", err)
-		}
+		sizePos := p.Read - 4
 		tt = et
+		found := false
 		for i := 0; i < size; i++ {
 			s = p.Read
 			if err := p.Skip(kt, UseNativeSkipForGet); err != nil {
@@ -1114,8 +1113,16 @@ func (self *Node) deleteChild(path Path) Node {
 			}
 			e = p.Read
 			if bytes.Equal(key, id) {
+				found = true
 				break
 			}
+		}
+		if !found {
+			return errNotFound
+		}
+		// modify the size only when an entry is really removed
+		if err := p.ModifyI32(sizePos, int32(size-1)); err != nil {
+			return errNode(meta.ErrWrite, "", err)
 		}
 	}
 
